@@ -17,7 +17,7 @@ var thresholdMenu = []thresholds{{30, 45, 70}, {1, 2, 3}, {40, 60, 100}, {50, 99
 // prefix distinguishes groups ("" for single-group harnesses).
 func (w *vWorld) symNodes(prefix string, g, N int, classes []int, symCordon bool, annots []int, symCreate bool) {
 	for i := 0; i < N; i++ {
-		is := prefix + "n" + strconv.Itoa(len(w.nodes))
+		is := prefix + "n" + strconv.Itoa(i)
 		class := classes[0]
 		if len(classes) > 1 {
 			class = classes[verifChoice(is+".class", len(classes))]
@@ -50,7 +50,7 @@ func (w *vWorld) symNodes(prefix string, g, N int, classes []int, symCordon bool
 func (w *vWorld) symPods(prefix string, g, P int, placement int, daemonChoice bool, cpuMode int64, pendingChoice bool) {
 	N := len(w.nodes)
 	for j := 0; j < P; j++ {
-		js := prefix + "p" + strconv.Itoa(len(w.pods))
+		js := prefix + "p" + strconv.Itoa(j)
 		node := -1
 		switch placement {
 		case 0:
